@@ -579,4 +579,587 @@ theorem pullLocations_exact {g : Graph} (hsep : LocsSeparated g) (s : State) (n 
   rw [← dedupFirst_seqOf hsep]
   exact h.entry
 
+/-! ## Part 3: runs
+
+`Mono`: a piece of a step that changes no `get_location` entry and loses no passing result.  Every piece of the
+worker loop is `Mono`, except the call of `pull_locations` in `traverse_node`. -/
+
+structure Mono (s s' : State) : Prop where
+  nodesLen : s'.nodes.length = s.nodes.length
+  getLoc : ∀ i, (s'.nd i).getLoc = (s.nd i).getLoc
+  pass : ∀ i r, r ∈ (s.nd i).results → r.status = "PASS" → r ∈ (s'.nd i).results
+
+theorem Mono.refl (s : State) : Mono s s := ⟨rfl, fun _ => rfl, fun _ _ h _ => h⟩
+
+theorem Mono.trans {s s1 s2 : State} (a : Mono s s1) (b : Mono s1 s2) : Mono s s2 :=
+  ⟨b.nodesLen.trans a.nodesLen, fun i => (b.getLoc i).trans (a.getLoc i), fun i r h hp => b.pass i r (a.pass i r h hp) hp⟩
+
+theorem Mono.quiet {s s' : State} (hn : s'.nodes = s.nodes) : Mono s s' :=
+  ⟨by rw [hn], fun i => by rw [nd_of_nodes_eq hn], fun i r h _ => by rw [nd_of_nodes_eq hn]; exact h⟩
+
+theorem Mono.of_nd {s s' : State} (hl : s'.nodes.length = s.nodes.length) (hnd : ∀ i, s'.nd i = s.nd i) : Mono s s' :=
+  ⟨hl, fun i => by rw [hnd], fun i r h _ => by rw [hnd]; exact h⟩
+
+theorem mono_setNd (s : State) (m : Nat) (f : NodeD → NodeD) (hg : ∀ d, (f d).getLoc = d.getLoc)
+    (hr : ∀ d r, r ∈ d.results → r.status = "PASS" → r ∈ (f d).results) : Mono s (s.setNd m f) := by
+  refine ⟨nodes_length_setNd s m f, fun i => nd_setNd_proj (·.getLoc) s m f hg i, fun i r h hp => ?_⟩
+  rcases nd_setNd_cases s m f i with h' | ⟨_, _, h'⟩
+  · rw [h']; exact h
+  · rw [h']; exact hr _ r h hp
+
+theorem mono_setWd (s : State) (v : Nat) (f : WorkerD → WorkerD) : Mono s (s.setWd v f) := Mono.quiet rfl
+theorem mono_setCr (s : State) (c : Nat) (f : ClassRegs → ClassRegs) : Mono s (s.setCr c f) := Mono.quiet rfl
+
+theorem mono_foldl {β} (f : State → β → State) (h : ∀ s b, Mono s (f s b)) (l : List β) (s : State) :
+    Mono s (l.foldl f s) := by
+  induction l generalizing s with
+  | nil => exact Mono.refl s
+  | cons a r ih => simp only [List.foldl_cons]; exact (h s a).trans (ih _)
+
+theorem mono_pickChild (g : Graph) (s : State) (n v x : Nat) (s' : State) (h : pickChild g s n v = some (x, s')) :
+    Mono s (pushPath s' v x) :=
+  (Mono.of_nd (pickChild_qt v none g s n v x s' h).nodesLen (started_pickChild g s n v x s' h)).trans (mono_setWd _ _ _)
+
+theorem mono_pickParent (g : Graph) (s : State) (n v x : Nat) (s' : State) (h : pickParent g s n v = some (x, s')) :
+    Mono s (pushPath s' v x) :=
+  (Mono.of_nd (pickParent_qt v none g s n v x s' h).nodesLen (started_pickParent g s n v x s' h)).trans (mono_setWd _ _ _)
+
+theorem mono_runDecision (g : Graph) (s : State) (n v : Nat) (b : Bool) (s1 : State) (e1 : List Event)
+    (h : runDecision g s n v = .ok (b, s1, e1)) : Mono s s1 := by
+  rcases runDecision_state g s n v b s1 e1 h with h | h
+  · rw [h]; exact Mono.refl s
+  · rw [h]; exact mono_setNd s n _ (fun _ => rfl) (fun _ _ h _ => h)
+
+theorem mono_syncStates (g : Graph) (s : State) (n v : Nat) (rv : Option (List String)) :
+    Mono s (syncStates g s n v rv).1 := Mono.quiet (syncStates_frame g s n v rv).1
+
+theorem mono_reverseNode (g : Graph) (s : State) (n v : Nat) (s' : State) (evs : List Event)
+    (h : reverseNode g s n v = .ok (s', evs)) : Mono s s' := by
+  unfold reverseNode at h
+  by_cases hocc : isOccupied g s n v = true
+  · simp only [hocc, if_true, Except.ok.injEq, Prod.mk.injEq] at h
+    rw [← h.1]; exact Mono.refl s
+  · simp only [hocc, Bool.false_eq_true, if_false, ite_self] at h
+    have h0 : Mono s (s.setNd n (fun d => { d with started := some v })) := mono_setNd s n _ (fun _ => rfl) (fun _ _ h _ => h)
+    cases hd : cleanDecision g (s.setNd n (fun d => { d with started := some v })) n v with
+    | error e => simp [hd] at h
+    | ok clean =>
+      simp only [hd, Except.ok.injEq, Prod.mk.injEq] at h
+      rw [← h.1]
+      refine h0.trans (Mono.trans ?_ (mono_setNd _ n _ (fun _ => rfl) (fun _ _ h _ => h)))
+      split
+      · exact mono_syncStates g _ n v none
+      · exact Mono.refl _
+
+theorem mono_finishTraverse (s : State) (n v : Nat) : Mono s (finishTraverse s n v) :=
+  mono_setNd s n _ (fun _ => rfl) (fun _ _ h _ => h)
+
+theorem mono_afterTraverse (g : Graph) (s : State) (v next prev : Nat) (dir : Dir) :
+    Mono s (afterTraverse g s v next prev dir).1 := by
+  unfold afterTraverse
+  cases hd : runDecision g s next v with
+  | error e => exact Mono.refl s
+  | ok r =>
+    obtain ⟨run, s1, evs⟩ := r
+    have h1 : Mono s s1 := mono_runDecision g s next v run s1 evs hd
+    cases dir with
+    | up =>
+      dsimp only
+      refine h1.trans (Mono.trans ?_ (mono_setWd _ v _))
+      split
+      · exact mono_setCr s1 _ _
+      · exact Mono.refl s1
+    | down =>
+      dsimp only
+      by_cases hrun : run = true
+      · simp only [hrun, if_true]
+        exact h1.trans (mono_setWd _ v _)
+      · simp only [hrun, Bool.false_eq_true, if_false]
+        by_cases hcr : isCleanupReady g s1 next v = true
+        · simp only [hcr, if_true]
+          by_cases hpp : (!(g.node next).flat && (s1.wd v).unexplored) = true
+          · simp only [hpp, if_true]
+            exact h1.trans (mono_setWd s1 v _)
+          simp only [hpp, Bool.false_eq_true, if_false]
+          have h2 : Mono s1 (List.foldl (fun s x => dropChild g s x.1 next v) s1 (g.node next).setup) := by
+            apply mono_foldl
+            rintro s ⟨p, _⟩
+            exact mono_setCr s _ _
+          cases hr : reverseNode g (List.foldl (fun s x => dropChild g s x.1 next v) s1 (g.node next).setup) next v with
+          | error e => exact h1.trans h2
+          | ok r =>
+            obtain ⟨s2, evs2⟩ := r
+            exact h1.trans (h2.trans ((mono_reverseNode g _ next v s2 evs2 hr).trans (mono_setWd _ v _)))
+        · simp only [hcr, Bool.false_eq_true, if_false]
+          cases hp : pickChild g s1 next v with
+          | none => exact h1
+          | some r =>
+            obtain ⟨x, s2⟩ := r
+            exact h1.trans (mono_pickChild g s1 next v x s2 hp)
+
+/-- the events of `afterTraverse` are requests to the state control -/
+theorem afterTraverse_doors (g : Graph) (s : State) (w next prev : Nat) (dir : Dir) :
+    DoorsOnly (afterTraverse g s w next prev dir).2.1 := by
+  unfold afterTraverse
+  cases hrd : runDecision g s next w with
+  | error e => exact DoorsOnly.nil
+  | ok r =>
+    obtain ⟨run, s1, evs1⟩ := r
+    have hd1 := runDecision_doors g s next w run s1 evs1 hrd
+    cases dir with
+    | up => exact hd1
+    | down =>
+      dsimp only
+      split
+      · exact hd1
+      · split
+        · split
+          · exact hd1
+          · split
+            · exact hd1
+            · next s3 evs3 hr => exact hd1.append (reverseNode_qt w g _ next w s3 evs3 hr).2
+        · split <;> exact hd1
+
+theorem mono_startTest (g : Graph) (s : State) (n v : Nat) (ph : Phase) (dir : Dir) :
+    Mono s (startTest g s n v ph dir).1 := by
+  have a1 : Mono s { s with nextTag := s.nextTag + 1 } := Mono.quiet rfl
+  unfold startTest
+  dsimp only
+  split
+  · show Mono s (State.setWd _ v _)
+    exact a1.trans (mono_setWd _ v _)
+  · show Mono s (State.setWd (State.setNd _ n _) v _)
+    refine Mono.trans (Mono.trans a1 ?_) (mono_setWd _ v _)
+    exact mono_setNd _ n _ (fun _ => rfl) (fun _ r h _ => List.mem_append_left _ h)
+
+/-- the one event of `startTest`: a start carrying the `get_location` entries of the copy -/
+theorem startTest_event (g : Graph) (s : State) (n w : Nat) (ph : Phase) (dir : Dir) :
+    ∀ e ∈ (startTest g s n w ph dir).2.1, ∃ uid k,
+      e = .start (g.worker w).id (clsName g n ph) uid ((startTest g s n w ph dir).1.nd n).getLoc k := by
+  unfold startTest
+  dsimp only
+  split
+  all_goals
+    intro e he
+    simp only [List.mem_singleton] at he
+    exact ⟨_, _, he⟩
+
+theorem mono_prepare (g : Graph) (s : State) (v : Nat) : Mono s (prepare g s v) :=
+  Mono.quiet (prepare_frame g s v).1
+
+theorem mono_reportOutcome (g : Graph) (s : State) (w n : Nat) (phase : Phase) (uid : String) (wait : Nat) (out : Outcome) :
+    Mono s (reportOutcome g s w n phase uid wait out).1 :=
+  Mono.quiet (reportOutcome_frame g s w n phase uid wait out).1
+
+theorem mono_recordResult (s : State) (v n : Nat) (phase : Phase) (name uid : String) (tag : Nat) (st0 : String)
+    (dur : Nat) : Mono s (recordResult s v n phase name uid tag st0 dur).1 := by
+  unfold recordResult
+  dsimp only
+  have hX : ∀ (b : Bool) (jr : List (String × String × String × Nat)),
+      Mono s (if b = true then { s with jobResults := jr } else s) := by
+    intro b jr
+    cases b
+    · exact Mono.refl s
+    · exact Mono.quiet rfl
+  by_cases hp : (phase == Phase.pre) = true
+  · simp only [hp, if_true]
+    exact (hX _ _).trans (mono_setWd _ v _)
+  · simp only [hp, Bool.false_eq_true, if_false]
+    refine (hX _ _).trans (mono_setNd _ n _ (fun _ => rfl) ?_)
+    intro d r hr hpass
+    rw [List.mem_filter]
+    refine ⟨List.mem_append_left _ hr, ?_⟩
+    simp [hpass]
+
+/-! ### the invariant -/
+
+/-- `t` is a location `pull_locations` lists for the object `vm` of `n` on the (eager) graph: the shared pool, or the
+pool of a worker with a passing result of a setup parent of `n` through `vm` -/
+def Listed (g : Graph) (s : State) (n : Nat) (vm t : String) : Prop :=
+  ∃ p vms, (p, vms) ∈ (g.node n).setup ∧ vm ∈ vms ∧ t ∈ locsOf g s p
+
+theorem mem_sharedResults (g : Graph) (s : State) (p : Nat) (r : Result) :
+    r ∈ sharedResults g s p ↔ ∃ i ∈ g.copies p, r ∈ (s.nd i).results := by
+  unfold sharedResults
+  rw [List.mem_flatMap]
+
+theorem mem_sharedResultWorkerIds (g : Graph) (s : State) (p v : Nat) :
+    v ∈ sharedResultWorkerIds g s p ↔
+      ∃ r ∈ sharedResults g s p, r.status = "PASS" ∧
+        (List.range g.workers.length).find? (fun w => strIn (g.worker w).id r.name) = some v := by
+  unfold sharedResultWorkerIds
+  rw [mem_dedupNat, List.mem_filterMap]
+  constructor
+  · rintro ⟨r, hr, h⟩
+    by_cases hp : r.status = "PASS"
+    · simp only [hp, bne_self_eq_false, Bool.false_eq_true, if_false] at h
+      exact ⟨r, hr, hp, h⟩
+    · have : (r.status != "PASS") = true := by simpa using hp
+      simp [this] at h
+  · rintro ⟨r, hr, hp, h⟩
+    refine ⟨r, hr, ?_⟩
+    simp [hp, h]
+
+/-- no passing result is lost -/
+def PassLe (s s' : State) : Prop := ∀ i r, r ∈ (s.nd i).results → r.status = "PASS" → r ∈ (s'.nd i).results
+
+theorem locsOf_mono (g : Graph) {s s' : State} (h : PassLe s s') (p : Nat) (t : String) (ht : t ∈ locsOf g s p) :
+    t ∈ locsOf g s' p := by
+  unfold locsOf at ht ⊢
+  rcases List.mem_cons.mp ht with rfl | ht
+  · exact List.mem_cons_self
+  · obtain ⟨v, hv, rfl⟩ := List.mem_map.mp ht
+    refine List.mem_cons_of_mem _ (List.mem_map.mpr ⟨v, ?_, rfl⟩)
+    rw [mem_sharedResultWorkerIds] at hv ⊢
+    obtain ⟨r, hr, hp, hf⟩ := hv
+    obtain ⟨i, hi, hri⟩ := (mem_sharedResults g s p r).mp hr
+    exact ⟨r, (mem_sharedResults g s' p r).mpr ⟨i, hi, h i r hri hp⟩, hp, hf⟩
+
+theorem Listed.mono {g : Graph} {s s' : State} {n : Nat} {vm t : String} (h : Listed g s n vm t) (hp : PassLe s s') :
+    Listed g s' n vm t := by
+  obtain ⟨p, vms, h1, h2, h3⟩ := h
+  exact ⟨p, vms, h1, h2, locsOf_mono g hp p t h3⟩
+
+/-- **the location invariant**: every `get_location` entry of every copy is the blank-join of a duplicate-free list
+of location strings, each of which is justified in the current state — the shared pool, or the pool of a worker with
+a passing result of a setup parent through that object -/
+structure LInv (g : Graph) (s : State) : Prop where
+  nodesLen : s.nodes.length = g.nodes.length
+  toks : ∀ n vm, ∃ T, TokAt (allLocs g) (s.nd n).getLoc vm T ∧ ∀ t ∈ T, Listed g s n vm t
+
+theorem LInv.mono {g : Graph} {s s' : State} (h : LInv g s) (m : Mono s s') : LInv g s' :=
+  ⟨m.nodesLen.trans h.nodesLen, fun n vm => by
+    obtain ⟨T, h1, h2⟩ := h.toks n vm
+    exact ⟨T, by rw [m.getLoc]; exact h1, fun t ht => (h2 t ht).mono m.pass⟩⟩
+
+/-- `gv` is `g` with some edges removed (the graph as parsed so far) -/
+structure SubVis (g gv : Graph) : Prop where
+  static : SameStatic g gv
+  edges : ∀ n e, e ∈ (gv.node n).setup → e ∈ (g.node n).setup
+
+theorem subVis_vis (g : Graph) (s : State) : SubVis g (vis g s) :=
+  ⟨sameStatic_vis g s, fun n e he => by
+    obtain ⟨su, cl, h, h1, _⟩ := vis_node g s n
+    rw [h] at he
+    exact h1 e he⟩
+
+theorem locsOf_static {g gv : Graph} (h : SameStatic g gv) (s : State) (p : Nat) : locsOf gv s p = locsOf g s p := by
+  unfold locsOf sharedResultWorkerIds sharedResults workerLoc Graph.worker
+  rw [h.copies_eq, h.workers]
+
+theorem vis_congr (g : Graph) (s s' : State) (h : s'.hidden = s.hidden) : vis g s' = vis g s := by
+  unfold vis; rw [h]
+
+theorem pull_nd_ne (gv : Graph) (s : State) (n m : Nat) (h : m ≠ n) : (pullLocations gv s n).nd m = s.nd m := by
+  unfold pullLocations
+  split
+  · rfl
+  · apply foldl_preserves (fun s => s.nd m)
+    rintro s ⟨p, vms⟩
+    apply foldl_preserves (fun s => s.nd m)
+    intro s loc
+    apply foldl_preserves (fun s => s.nd m)
+    intro s vm
+    exact nd_setNd_ne s n m _ h
+
+theorem pull_results (gv : Graph) (s : State) (n m : Nat) :
+    ((pullLocations gv s n).nd m).results = (s.nd m).results := by
+  unfold pullLocations
+  split
+  · rfl
+  · apply foldl_preserves (fun s => (s.nd m).results)
+    rintro s ⟨p, vms⟩
+    apply foldl_preserves (fun s => (s.nd m).results)
+    intro s loc
+    apply foldl_preserves (fun s => (s.nd m).results)
+    intro s vm
+    exact nd_setNd_proj (·.results) s n (fun d => { d with getLoc := locAdd d.getLoc vm loc }) (fun _ => rfl) m
+
+theorem seqOf_congr (gv : Graph) (s s' : State) (n : Nat) (vm : String) (h : ∀ m, (s'.nd m).results = (s.nd m).results) :
+    seqOf gv s' n vm = seqOf gv s n vm := by
+  unfold seqOf locsOf
+  simp only [sharedResultWorkerIds_congr gv s s' _ h]
+
+/-- the entries of copy `n` in `sd` are those of a state right after `pull_locations` on the graph `gv`: old tokens
+`T0` (all justified) followed by the new ones of `seqOf gv sd n vm` in order of first occurrence -/
+def Fresh (g gv : Graph) (sd : State) (n : Nat) : Prop :=
+  ∀ vm, ∃ T0, TokAt (allLocs g) (sd.nd n).getLoc vm ((seqOf gv sd n vm).foldl pushNew T0) ∧ ∀ t ∈ T0, Listed g sd n vm t
+
+/-- `pull_locations` on the visible graph keeps the invariant, and leaves the pulled copy `Fresh` -/
+theorem LInv.pull {g gv : Graph} (hsep : LocsSeparated g) (hv : SubVis g gv) {s : State} (h : LInv g s) (n : Nat) :
+    LInv g (pullLocations gv s n) ∧ ((gv.node n).flat = false → Fresh g gv (pullLocations gv s n) n) := by
+  have hres := pull_results gv s n
+  have hpl : PassLe s (pullLocations gv s n) := fun i r hr _ => by rw [hres]; exact hr
+  by_cases hflat : (gv.node n).flat = true
+  · have : pullLocations gv s n = s := by unfold pullLocations; simp [hflat]
+    rw [this]
+    exact ⟨h, fun hf => by rw [hflat] at hf; cases hf⟩
+  have hflat' : (gv.node n).flat = false := by simpa using hflat
+  by_cases hn : n < s.nodes.length
+  · have key : ∀ vm, ∃ T0, TokAt (allLocs g) ((pullLocations gv s n).nd n).getLoc vm ((seqOf gv s n vm).foldl pushNew T0) ∧
+        (∀ t ∈ T0, Listed g s n vm t) := by
+      intro vm
+      obtain ⟨T, h1, h2⟩ := h.toks n vm
+      refine ⟨T, pullLocations_tok hsep.sep gv s n hflat' hn ?_ vm T h1, h2⟩
+      intro p t ht
+      rw [locsOf_static hv.static] at ht
+      exact locsOf_sub_allLocs g s p t ht
+    have hseq : ∀ vm, ∀ t ∈ seqOf gv s n vm, Listed g s n vm t := by
+      intro vm t ht
+      unfold seqOf at ht
+      obtain ⟨e, he, hte⟩ := List.mem_flatMap.mp ht
+      rw [List.mem_filter] at he
+      exact ⟨e.1, e.2, hv.edges n e he.1, by simpa using he.2, by rw [← locsOf_static hv.static]; exact hte⟩
+    refine ⟨⟨(qt_pullLocations 0 none gv s n).nodesLen.trans h.nodesLen, fun m vm => ?_⟩, fun _ vm => ?_⟩
+    · by_cases hm : m = n
+      · subst hm
+        obtain ⟨T0, h1, h2⟩ := key vm
+        refine ⟨_, h1, fun t ht => ?_⟩
+        rcases (mem_foldl_pushNew _ _ t).mp ht with h' | h'
+        · exact (h2 t h').mono hpl
+        · exact (hseq vm t h').mono hpl
+      · obtain ⟨T, h1, h2⟩ := h.toks m vm
+        exact ⟨T, by rw [pull_nd_ne gv s n m hm]; exact h1, fun t ht => (h2 t ht).mono hpl⟩
+    · obtain ⟨T0, h1, h2⟩ := key vm
+      exact ⟨T0, by rw [seqOf_congr gv s _ n vm hres]; exact h1, fun t ht => (h2 t ht).mono hpl⟩
+  · have hset : (gv.node n).setup = [] :=
+      (node_edges_of_ge gv n (by rw [hv.static.len, ← h.nodesLen]; exact hn)).1
+    have : pullLocations gv s n = s := by unfold pullLocations; simp [hflat', hset]
+    rw [this]
+    refine ⟨h, fun _ vm => ?_⟩
+    obtain ⟨T, h1, h2⟩ := h.toks n vm
+    refine ⟨T, ?_, h2⟩
+    have : seqOf gv s n vm = [] := by unfold seqOf; simp [hset]
+    rw [this]
+    exact h1
+
+/-! ### events -/
+
+/-- provenance of the `locs` field of a start event: it is the `get_location` record of the started copy in a state
+`sd` that satisfies the invariant; for the `plain` and `pre` phases `sd` is the decision state — the state right after
+`pull_locations` on the graph visible then — and the copy is `Fresh` there -/
+def EvL (g : Graph) (e : Event) : Prop :=
+  ∀ wid cname uid locs k, e = .start wid cname uid locs k →
+    ∃ n ph sd, cname = clsName g n ph ∧ locs = (sd.nd n).getLoc ∧ LInv g sd ∧ (ph ≠ .main → Fresh g (vis g sd) sd n)
+
+def EvsL (g : Graph) (evs : List Event) : Prop := ∀ e ∈ evs, EvL g e
+
+theorem EvsL.nil (g : Graph) : EvsL g [] := fun _ h => by simp at h
+
+theorem EvsL.append {g : Graph} {a b : List Event} (ha : EvsL g a) (hb : EvsL g b) : EvsL g (a ++ b) := by
+  intro e he
+  rcases List.mem_append.mp he with he | he
+  · exact ha e he
+  · exact hb e he
+
+theorem evsL_single (g : Graph) (e : Event) (h : e.isStart = false) : EvsL g [e] := by
+  intro e' he wid cname uid locs k heq
+  simp only [List.mem_singleton] at he
+  rw [he] at heq
+  rw [heq] at h
+  simp [Event.isStart] at h
+
+theorem DoorsOnly.evsL {evs : List Event} (h : DoorsOnly evs) (g : Graph) : EvsL g evs := by
+  intro e he wid cname uid locs k heq
+  have := h e he
+  rw [heq] at this
+  simp [Event.isDoor] at this
+
+theorem startTest_L (g gv : Graph) (hcl : ∀ n ph, clsName gv n ph = clsName g n ph) (s : State) (n w : Nat) (ph : Phase)
+    (dir : Dir) (sd : State) (hg : (s.nd n).getLoc = (sd.nd n).getLoc) (hsd : LInv g sd)
+    (hf : ph ≠ .main → Fresh g (vis g sd) sd n) : EvsL g (startTest gv s n w ph dir).2.1 := by
+  intro e he wid cname uid locs k heq
+  obtain ⟨uid', k', he'⟩ := startTest_event gv s n w ph dir e he
+  rw [he'] at heq
+  injection heq with h1 h2 h3 h4 h5
+  exact ⟨n, ph, sd, by rw [← h2, hcl], by rw [← h4, (mono_startTest gv s n w ph dir).getLoc, hg], hsd, hf⟩
+
+/-! ### the walk -/
+
+theorem traverseNode_L {g : Graph} (hsep : LocsSeparated g) (s : State) (w next prev : Nat) (dir : Dir) (h : LInv g s) :
+    LInv g (traverseNode (vis g s) s w next prev dir).1 ∧ EvsL g (traverseNode (vis g s) s w next prev dir).2.1 := by
+  have hcl : ∀ n ph, clsName (vis g s) n ph = clsName g n ph := vis_clsName g s
+  unfold traverseNode
+  by_cases hocc : isOccupied (vis g s) s next w = true
+  · simp only [hocc, if_true]
+    exact ⟨h.mono (mono_afterTraverse _ s w next prev dir), (afterTraverse_doors _ s w next prev dir).evsL g⟩
+  · simp only [hocc, Bool.false_eq_true, if_false]
+    have h0 : LInv g (s.setNd next (fun d => { d with started := some w })) :=
+      h.mono (mono_setNd s next _ (fun _ => rfl) (fun _ _ h _ => h))
+    obtain ⟨hsd, hfresh⟩ := h0.pull hsep (subVis_vis g s) next
+    have hvis : vis g (pullLocations (vis g s) (s.setNd next (fun d => { d with started := some w })) next) = vis g s :=
+      vis_congr g _ _ (by rw [(qt_pullLocations 0 none (vis g s) _ next).hidden]; rfl)
+    generalize pullLocations (vis g s) (s.setNd next (fun d => { d with started := some w })) next = sd at hsd hfresh hvis ⊢
+    cases hd : runDecision (vis g s) sd next w with
+    | error e => exact ⟨hsd, EvsL.nil g⟩
+    | ok r =>
+      obtain ⟨run, s1, evs⟩ := r
+      have m1 : Mono sd s1 := mono_runDecision _ sd next w run s1 evs hd
+      have e1 : EvsL g evs := (runDecision_doors _ sd next w run s1 evs hd).evsL g
+      dsimp only
+      by_cases hrun : run = true
+      · subst hrun
+        simp only [if_true]
+        have hnf := (runDecision_true_own _ sd next w s1 evs hd).2.1
+        have hfr : Fresh g (vis g sd) sd next := by rw [hvis]; exact hfresh hnf
+        by_cases hroot : ((vis g s).node next).objectRoot = true
+        · simp only [hroot, if_true]
+          show LInv g (startTest (vis g s) (s1.setWd w _) next w .pre dir).1 ∧
+            EvsL g (evs ++ (startTest (vis g s) (s1.setWd w _) next w .pre dir).2.1)
+          refine ⟨hsd.mono (m1.trans ((mono_setWd s1 w _).trans (mono_startTest _ _ next w .pre dir))), e1.append ?_⟩
+          exact startTest_L g (vis g s) hcl _ next w .pre dir sd (by rw [nd_setWd, m1.getLoc]) hsd (fun _ => hfr)
+        · simp only [hroot, Bool.false_eq_true, if_false]
+          show LInv g (startTest (vis g s) s1 next w .plain dir).1 ∧
+            EvsL g (evs ++ (startTest (vis g s) s1 next w .plain dir).2.1)
+          exact ⟨hsd.mono (m1.trans (mono_startTest _ s1 next w .plain dir)),
+            e1.append (startTest_L g (vis g s) hcl s1 next w .plain dir sd (m1.getLoc next) hsd (fun _ => hfr))⟩
+      · simp only [hrun, Bool.false_eq_true, if_false]
+        show LInv g (afterTraverse (vis g s) (finishTraverse s1 next w) w next prev dir).1 ∧
+          EvsL g (evs ++ (afterTraverse (vis g s) (finishTraverse s1 next w) w next prev dir).2.1)
+        exact ⟨hsd.mono (m1.trans ((mono_finishTraverse s1 next w).trans (mono_afterTraverse _ _ w next prev dir))),
+          e1.append ((afterTraverse_doors _ _ w next prev dir).evsL g)⟩
+
+theorem iter_L {g : Graph} (hsep : LocsSeparated g) (s : State) (w : Nat) (h : LInv g s) :
+    LInv g (iter (vis g s) s w).1 ∧ EvsL g (iter (vis g s) s w).2.1 := by
+  unfold iter
+  dsimp only
+  split
+  · split
+    · exact ⟨h.mono (mono_setWd s w _), evsL_single g _ rfl⟩
+    · exact ⟨h, EvsL.nil g⟩
+  · cases hl : (s.wd w).path.getLast? with
+    | none => exact ⟨h, EvsL.nil g⟩
+    | some next =>
+      dsimp only
+      split
+      · cases hp : pickChild (vis g s) s next w with
+        | none => exact ⟨h, EvsL.nil g⟩
+        | some r => obtain ⟨x, s2⟩ := r; exact ⟨h.mono (mono_pickChild _ s next w x s2 hp), EvsL.nil g⟩
+      · split
+        · -- the bounce
+          refine ⟨h.mono ?_, evsL_single g _ rfl⟩
+          show Mono s (State.setWd _ w _)
+          refine Mono.trans ?_ (mono_setWd _ w _)
+          split
+          · refine Mono.trans ?_ (mono_setWd _ w _)
+            split
+            · exact mono_setNd s next _ (fun _ => rfl) (fun _ _ h _ => h)
+            · exact Mono.refl s
+          · exact mono_setWd s w _
+        · split
+          · split
+            · exact traverseNode_L hsep s w next _ .up h
+            · cases hp : pickParent (vis g s) s next w with
+              | none => exact ⟨h, EvsL.nil g⟩
+              | some r => obtain ⟨x, s2⟩ := r; exact ⟨h.mono (mono_pickParent _ s next w x s2 hp), EvsL.nil g⟩
+          · split
+            · split
+              · cases hp : pickParent (vis g s) s next w with
+                | none => exact ⟨h, EvsL.nil g⟩
+                | some r => obtain ⟨x, s2⟩ := r; exact ⟨h.mono (mono_pickParent _ s next w x s2 hp), EvsL.nil g⟩
+              · exact traverseNode_L hsep s w next _ .down h
+            · exact ⟨h, EvsL.nil g⟩
+
+theorem iterL_L {g : Graph} (hsep : LocsSeparated g) (s : State) (w : Nat) (h : LInv g s) :
+    LInv g (iterL g s w).1 ∧ EvsL g (iterL g s w).2.1 := by
+  unfold iterL
+  split
+  · exact iter_L hsep s w h
+  · exact iter_L hsep (prepare g s w) w (h.mono (mono_prepare g s w))
+
+theorem runLoop_L {g : Graph} (hsep : LocsSeparated g) (w : Nat) (fuel : Nat) (s : State) (evs : List Event)
+    (h : LInv g s) (he : EvsL g evs) : LInv g (runLoop g w fuel s evs).1 ∧ EvsL g (runLoop g w fuel s evs).2 := by
+  induction fuel generalizing s evs with
+  | zero => exact ⟨h, he.append (evsL_single g _ rfl)⟩
+  | succ fuel ih =>
+    unfold runLoop
+    dsimp only
+    have h0 := iterL_L hsep _ w (h.mono (mono_setWd s w (fun d => { d with pc := .loop })))
+    split
+    · next s1 e heq => rw [heq] at h0; exact ih s1 _ h0.1 (he.append h0.2)
+    · next s1 e heq => rw [heq] at h0; exact ⟨h0.1, he.append h0.2⟩
+    · next s1 e heq => rw [heq] at h0; exact ⟨h0.1, he.append h0.2⟩
+    · next s1 e what heq =>
+      rw [heq] at h0
+      exact ⟨h0.1.mono (mono_setWd s1 w _), (he.append h0.2).append (evsL_single g _ rfl)⟩
+
+theorem continueAfter_L {g : Graph} (hsep : LocsSeparated g) (w n : Nat) (phase : Phase) (dir : Dir) (fuel : Nat)
+    (s : State) (ok : Bool) (evs : List Event) (h : LInv g s) (he : EvsL g evs) :
+    LInv g (resumeTest.continueAfter g w n phase dir fuel s ok evs).1 ∧
+      EvsL g (resumeTest.continueAfter g w n phase dir fuel s ok evs).2 := by
+  unfold resumeTest.continueAfter
+  dsimp only
+  split
+  · show LInv g (startTest g s n w .main dir).1 ∧ EvsL g (evs ++ (startTest g s n w .main dir).2.1)
+    exact ⟨h.mono (mono_startTest g s n w .main dir),
+      he.append (startTest_L g g (fun _ _ => rfl) s n w .main dir s rfl h (fun hm => absurd rfl hm))⟩
+  · generalize hsF : finishTraverse (if (phase == Phase.pre) = true then
+          s.setNd n (fun d => { d with results := d.results ++ (s.wd w).preResults.drop d.results.length })
+        else s) n w = sF
+    have hF : LInv g sF := by
+      rw [← hsF]
+      refine h.mono (Mono.trans ?_ (mono_finishTraverse _ n w))
+      split
+      · exact mono_setNd s n _ (fun _ => rfl) (fun _ r h _ => List.mem_append_left _ h)
+      · exact Mono.refl s
+    have hA := hF.mono (mono_afterTraverse (vis g sF) sF w n ((s.wd w).path.getD ((s.wd w).path.length - 2) 0) dir)
+    have hD := (afterTraverse_doors (vis g sF) sF w n ((s.wd w).path.getD ((s.wd w).path.length - 2) 0) dir).evsL g
+    generalize afterTraverse (vis g sF) sF w n ((s.wd w).path.getD ((s.wd w).path.length - 2) 0) dir = r at hA hD
+    obtain ⟨s1, e2, fl⟩ := r
+    cases fl with
+    | raise what => exact ⟨hA.mono (mono_setWd s1 w _), (he.append hD).append (evsL_single g _ rfl)⟩
+    | cont => exact runLoop_L hsep w fuel s1 _ hA (he.append hD)
+    | suspend => exact runLoop_L hsep w fuel s1 _ hA (he.append hD)
+    | exit => exact runLoop_L hsep w fuel s1 _ hA (he.append hD)
+
+theorem reportOutcome_evsL (g : Graph) (s : State) (w n : Nat) (phase : Phase) (uid : String) (wait : Nat) (out : Outcome) :
+    EvsL g (reportOutcome g s w n phase uid wait out).2 := by
+  unfold reportOutcome
+  dsimp only
+  split
+  · split
+    all_goals exact evsL_single g _ rfl
+  · exact EvsL.nil g
+
+/-- **one scheduler step keeps the location invariant, and every start event it emits carries entries of a state
+that satisfies it** -/
+theorem resume_L {g : Graph} (hsep : LocsSeparated g) (s : State) (w : Nat) (out : Outcome) (fuel : Nat) (h : LInv g s) :
+    LInv g (resume g s w out fuel).1 ∧ EvsL g (resume g s w out fuel).2 := by
+  unfold resume
+  split
+  · exact runLoop_L hsep w fuel s [] h (EvsL.nil g)
+  · exact runLoop_L hsep w fuel s [] h (EvsL.nil g)
+  · next n phase dir uid tag wait heq =>
+    rw [resumeTest_eq]
+    have hA := h.mono (mono_reportOutcome g s w n phase uid wait out)
+    have h0 := reportOutcome_evsL g s w n phase uid wait out
+    have hs : ∀ wid q, EvsL g ((reportOutcome g s w n phase uid wait out).2 ++ [Event.sleep wid q]) := fun wid q =>
+      h0.append (evsL_single g _ rfl)
+    split
+    · exact continueAfter_L hsep w n phase dir fuel _ _ _ (hA.mono (mono_recordResult _ w n phase _ uid tag _ _)) h0
+    · split
+      · exact ⟨hA.mono (mono_setWd _ w _), hs _ _⟩
+      · split
+        · exact ⟨hA.mono (mono_setWd _ w _), hs _ _⟩
+        · exact continueAfter_L hsep w n phase dir fuel _ _ _ hA h0
+  · exact ⟨h, EvsL.nil g⟩
+  · exact ⟨h, EvsL.nil g⟩
+
+theorem LInv.init (g : Graph) (ncls : Nat) (store : List (String × List (String × String))) (hidden : List Nat) :
+    LInv g (initState g ncls store hidden) := by
+  have hnd : ∀ i, ((initState g ncls store hidden).nd i).getLoc = [] := by
+    intro i
+    unfold initState State.nd
+    simp only [List.getD_eq_getElem?_getD, List.getElem?_map]
+    cases g.nodes[i]? <;> rfl
+  refine ⟨by simp [initState], fun n vm => ⟨[], ?_, fun t ht => by simp at ht⟩⟩
+  rw [hnd]
+  exact tokAt_nil _ _
+
+theorem ReachableF.linv {g : Graph} (hsep : LocsSeparated g) {ncls : Nat} {store : List (String × List (String × String))}
+    {s : State} (h : ReachableF g ncls store s) : LInv g s := by
+  induction h with
+  | init hidden => exact LInv.init g ncls store hidden
+  | step s w out fuel _ _ _ ih => exact (resume_L hsep s w out fuel ih).1
+
 end I2N.Trav
